@@ -228,3 +228,29 @@ package ast
 //@   loop 0: invariant 0 <= j && j <= l && l == cast(*linkedPairs, self.p).size && lpWF(cast(*linkedPairs, self.p))
 //@   loop 0: invariant 0 <= i && i <= i0
 //@   loop 0: decreases l - j
+
+// ---- Parser helpers (C02: exactly RFC 8259 white space is skipped before a structural
+// byte; C07: no index outside the text).
+//@ func (*Parser).lspace props C02,C07
+//@   requires self != nil && 0 <= sp
+//@   ensures sp <= result && (result <= len(self.s) || result == sp)
+//@   ensures forall k int :: (sp <= k && k < result) ==> utils.isSp(self.s[k])
+//@   ensures result < len(self.s) ==> !utils.isSp(self.s[result])
+//@   loop 0: invariant sp0 <= sp && (sp <= len(self.s) || sp == sp0) && ns == len(self.s)
+//@   loop 0: invariant forall k int :: (sp0 <= k && k < sp) ==> utils.isSp(self.s[k])
+//@   loop 0: decreases ns - sp
+//@ func (*Parser).delim props C02,C07
+//@   requires self != nil && 0 <= self.p
+//@   modifies self.p
+//@   ensures result == 0 ==> (old(self.p) < self.p && self.p <= len(self.s) && self.s[self.p - 1] == 0x3a && (forall k int :: (old(self.p) <= k && k < self.p - 1) ==> utils.isSp(self.s[k])))
+//@   ensures result != 0 ==> self.p == old(self.p)
+//@ func (*Parser).object props C02,C07
+//@   requires self != nil && 0 <= self.p
+//@   modifies self.p
+//@   ensures result == 0 ==> (old(self.p) < self.p && self.p <= len(self.s) && self.s[self.p - 1] == 0x7b && (forall k int :: (old(self.p) <= k && k < self.p - 1) ==> utils.isSp(self.s[k])))
+//@   ensures result != 0 ==> self.p == old(self.p)
+//@ func (*Parser).array props C02,C07
+//@   requires self != nil && 0 <= self.p
+//@   modifies self.p
+//@   ensures result == 0 ==> (old(self.p) < self.p && self.p <= len(self.s) && self.s[self.p - 1] == 0x5b && (forall k int :: (old(self.p) <= k && k < self.p - 1) ==> utils.isSp(self.s[k])))
+//@   ensures result != 0 ==> self.p == old(self.p)
